@@ -285,6 +285,9 @@ class Gen:
                 a["formats"].append(r.choice(["upper", "lower"]))
                 if r.random() < 0.3:
                     a["checks"].append({"k": "maxlen", "a": 6, "b": 0, "vals": []})
+        if k == "tup" and r.random() < 0.35:
+            # formats of single positions (addFormatPos); position 1 is the string element
+            a["fmtpos"] = [{"p": p_, "f": r.choice(["upper", "lower"])} for p_ in r.sample([0, 1, 1, 2], r.randint(1, 2))]
         if is_cont(k):
             if r.random() < 0.3:
                 a["sep"] = ord(r.choice(";:+/"))            # (never ',' for key-value containers: it is their pair separator)
@@ -403,6 +406,10 @@ class Gen:
         s = "".join(r.choice(alphabet) for _ in range(n))
         if s[0] in "-":
             s = "a" + s[1:]
+        if n >= 2 and r.random() < 0.12:
+            # an '=' inside the value ("--key=a=b": the key ends at the FIRST '='); never as first character
+            k = r.randint(1, n - 1)
+            s = s[:k] + "=" + s[k + 1:]
         return s
 
     def bad_value(self, a):
